@@ -8,6 +8,8 @@ import JsonbModel.Driver.AccessOps
 import JsonbModel.Driver.EditOps
 import JsonbModel.Driver.NumOps
 import JsonbModel.Driver.OrderOps
+import JsonbModel.Driver.TextOps
+import JsonbModel.Driver.PathOps
 
 namespace Jsonb.Driver
 open Jsonb.Wire
@@ -55,6 +57,12 @@ def step (line : String) : String :=
         | none =>
           match orderStep req with
           | some r => r
-          | none => badReq
+          | none =>
+            match textStep req with
+            | some r => r
+            | none =>
+              match pathStep req with
+              | some r => r
+              | none => badReq
 
 end Jsonb.Driver
